@@ -424,10 +424,11 @@ def connDo (st : St) (e : Ev) : St × String :=
 open Mimic.Conn Mimic.Script in
 def conn (st : St) : List String → St × String
   | ["new"] => ({ st with conn := Mimic.Conn.init }, connReport 0 Mimic.Conn.init)
-  | ["login", "ok", s, f] => connDo st (.handshake (loginScript (.ok (s == "1") (f == "1"))))
-  | ["login", "denied"] => connDo st (.handshake (loginScript .denied))
-  | ["login", "unknown"] => connDo st (.handshake (loginScript .unknownUser))
-  | ["login", "malformed"] => connDo st (.handshake (loginScript .malformed))
+  | ["login", "ok", s, f] => connDo st (.handshake (loginScript (.ok (s == "1") (f == "1"))) (s == "1") (f == "1"))
+  | ["login", "denied"] => connDo st (.handshake (loginScript .denied) false false)
+  | ["login", "unknown"] => connDo st (.handshake (loginScript .unknownUser) false false)
+  | ["login", "malformed"] => connDo st (.handshake (loginScript .malformed) false false)
+  | ["closefails", f] => ({ st with conn := { st.conn with closeFails := f == "1" } }, "ok")
   | "cmd" :: dep :: r => match parseCmd r with
       | some c => connDo st (.cmd (scriptOf (dep == "1") c))
       | none => (st, "bad-op")
